@@ -142,3 +142,40 @@ def _dtype_stream(R: Run, BlockAssembler, rng):
                          sig=f"dt-fill|{xx.dtype.kind}")
             else:
                 R.count("dt-fill-unrepresentable")
+
+    # ---- casting= and an explicit dtype=: np.copyto refuses (TypeError) by rule, for EVERY block of the mapping, also one
+    # that does not meet the requested window
+    RULES = {"no": "no", "equiv": "equiv", "safe": "safe", "same_kind": "same_kind", "unsafe": "anycast"}
+    for rule, tok in RULES.items():
+        for a, b in itertools.product(DTS, repeat=2):
+            R.corr(f"c04 dt ccast {tok} {dt_s(a)} {dt_s(b)}", lambda a=a, b=b, rule=rule: bool_s(np.can_cast(a, b, rule)),
+                   sig=f"dt-ccast|{rule}")
+    ccases = []
+    for d in DTS:
+        for darg in DTS:
+            ccases.append(((d,), darg, None, "same_kind", False))
+    for _ in range(R.pick(400, 4000)):
+        combo = tuple(rng.choice(DTS) for _ in range(rng.randint(0, 3)))
+        ccases.append((combo, rng.choice([None] + DTS), rng.choice([None, None, 0, 1, -1, 300, 1.5, float("nan"), True]),
+                       rng.choice(list(RULES)), rng.random() < 0.5))
+    for combo, darg, fill, rule, first_tile_only in ccases:
+        def f():
+            blocks = {(i, 0): (np.arange(6).reshape(2, 3) % 2).astype(d) for i, d in enumerate(combo)}
+            a = BlockAssembler(blocks, ((2,) * len(combo) + (2,), (3,)))
+            kw = {"casting": rule}
+            if darg is not None:
+                kw["dtype"] = darg
+            if first_tile_only:
+                kw["roi"] = (slice(0, 2), slice(0, 3))
+            xx = a.extract(fill, **kw) if fill is not None else a.extract(**kw)
+            return dt_s(xx.dtype)
+
+        out = guarded(f)
+        R.corr(f"c04 dt extractc {list_s([dt_s(d) for d in combo])} {'N' if darg is None else dt_s(darg)} {fill_tok(fill)} {RULES[rule]}",
+               lambda out=out: out, sig=f"dt-extractc|{rule}|{'explicit' if darg is not None else 'auto'}|"
+                                        f"{'window' if first_tile_only else 'all'}|{out if out.startswith('ERR') else 'ok'}")
+        if darg is None and rule in ("same_kind", "safe", "unsafe"):
+            R.oracle(out != "ERR:TypeError", "assembler-auto-dtype-refuses-block",
+                     {"blocks": [dt_s(d) for d in combo], "fill": repr(fill), "casting": rule},
+                     f"extract with the dtype left to it refused one of its own blocks: {out}", sig=f"dt-cast-oracle|{rule}")
+
